@@ -24,7 +24,9 @@ EXTENDS ExecManager, Json, IOUtils
 Rec == ndJsonDeserialize(IOEnv.TRACE)
 
 \* constants of ExecManager, from the trace / unbounded
-TraceREQ    == {Rec[i].id : i \in {j \in 1..Len(Rec) : Rec[j].a = "Accept"}}
+CONSTANT MaxId   \* request ids of a trace are 1..MaxId (a set computed from Rec would be
+                 \* re-evaluated at every reference: quadratic)
+TraceREQ    == 1..MaxId
 TraceNat    == Nat
 TraceSIDE   == {"buy", "sell"}
 TraceBUNDLE == {"lim", "mkt", "lim_po", "ioc"}
